@@ -134,6 +134,9 @@ func (s *scte35) parseTable(data []byte) error {
 			s.commandInfo = cmd
 		case SpliceNull:
 			s.commandInfo = &spliceNull{}
+			// no command time: the adjusted pts is the adjustment itself,
+			// which keeps pts_adjustment when the signal is encoded again
+			s.pts = ptsAdjustment
 		default:
 			return gots.ErrSCTE35UnsupportedSpliceCommand
 		}
